@@ -397,6 +397,8 @@ def fragment_correspondence(ctx: fw.Ctx):
 # (classified with parent "<fragment>" and the theorem's name), so an open defect stays visible on
 # every run and a repaired one makes the `cex_*` theorem the thing that breaks the tie.
 FRAGMENT_PROBES = [
+    ("Nima.C01.cex_unary_minus_path_fused", "C01", "- ./p.nix\n"),
+    ("Nima.C01.cex_unary_minus_path_fused", "C01", "{\n  a = - ./p.nix;\n}\n"),
     ("Nima.C03.cex_comment_overtakes", "C03", "[ x\n /* b */ /* c */ y ]"),
     ("Nima.C03.cex_comment_overtakes", "C03", "x\n# a\n/* b */ /* c */\n"),
     ("Nima.C03.cex_call_comment_reordered", "C03", "f/* a */ /* b */ x"),
